@@ -300,6 +300,11 @@ def _coverage_form(t, C, arg, facts: list[str]) -> tuple[str, str]:
     uniq = where[1]
     if dict(uniq[3]).get('return_counts') != ('const', 'True'):
         return 'bad', 'jnp.unique is called without return_counts=True'
+    static_size = dict(uniq[3]).get('size')
+    if static_size is not None and static_size != buf[2][0]:
+        # a static output size truncates the distinct pixels beyond it silently; only the number of pixels of the map is
+        # known to be enough for every sampling
+        return 'unknown', f'jnp.unique(..., size={show(static_size)}): whether that many entries hold all the distinct hit pixels of every sampling is not decided'
     if not (acc[2] and acc[2][0] == ('item', uniq, 1)):
         return 'bad', f'what is added is {show(acc[2][0]) if acc[2] else "nothing"}, not the counts of the unique indices'
     idx = ('call', ('attr', C, 'world2index'), (('attr', arg, 'theta'), ('attr', arg, 'phi')), ())
